@@ -33,6 +33,11 @@ func (prog *Progress) init() {
 	if prog.Cfg == nil {
 		prog.Cfg = &Config{}
 	}
+	if prog.Cfg.Ctx == nil || prog.Cfg.LinkTargetNodePrototypeChooser == nil {
+		// Fill the defaults into a private copy: the caller's Config may be shared by concurrent walks.
+		cfg := *prog.Cfg
+		prog.Cfg = &cfg
+	}
 	prog.Cfg.init()
 	if prog.Cfg.LinkVisitOnlyOnce {
 		prog.SeenLinks = make(map[datamodel.Link]struct{})
